@@ -651,7 +651,24 @@ func (t *fnTrans) resolveMod(item string, env *Env) []modTarget {
 	switch x := x.(type) {
 	case *EIdent:
 		if g, ok := t.eng.contracts.Ghosts[x.Name]; ok {
-			return []modTarget{{name: t.ghostVar(g, env.pkgOf(g.Pkg)).Name}}
+			out := []modTarget{{name: t.ghostVar(g, env.pkgOf(g.Pkg)).Name}}
+			for _, grp := range t.eng.contracts.GhostGroups {
+				in := false
+				for _, n := range grp {
+					if n == x.Name {
+						in = true
+					}
+				}
+				if !in {
+					continue
+				}
+				for _, n := range grp {
+					if g2, ok := t.eng.contracts.Ghosts[n]; ok && n != x.Name {
+						out = append(out, modTarget{name: t.ghostVar(g2, env.pkgOf(g2.Pkg)).Name})
+					}
+				}
+			}
+			return out
 		}
 		if obj := env.pkg.Scope().Lookup(x.Name); obj != nil {
 			if v, ok := obj.(*types.Var); ok {
